@@ -71,6 +71,10 @@ def build_tp(a):
         if a["holes"]:
             return ShapelyPolygon(space_of(a["var"], 2), shapely_polygon=sg.Polygon(a["verts"], a["holes"]))
         return ShapelyPolygon(space_of(a["var"], 2), vertices=a["verts"])
+    if k == "mesh":
+        from . import poly3d
+        assert a["var"] == "x"
+        return poly3d.build(a["shape"], a["winding"], a["source"])
     if k == "point":
         p = a["p"]
         dim = len(p) if isinstance(p, list) and not G.is_aff(p) else 1
